@@ -427,7 +427,7 @@ def map_keywords(keywords: list[str]):
         # keyword_ind can be 0 which if 0: evaluates to False
         if keyword_ind is not None:
             mapped_keywords.append(keyword_ind)
-            if keyword_prefix in ("intent", "dimension", "pass"):
+            if keyword_prefix in ("intent", "dimension", "pass", "bind"):
                 keyword_substring = get_paren_substring(keyword)
                 if keyword_substring is not None:
                     keyword_info[keyword_prefix] = keyword_substring
